@@ -212,7 +212,7 @@ pub(crate) fn fired_total() -> u64 {
 
 /// Build the operations for a list of intents the way an application would: through the public
 /// `TaskData` API, against the replica's current view. Returns None if reading failed (fault).
-async fn build_ops(n: usize, a: usize, replica: &mut Replica<SimStorage>, intents: &[Intent], now_ns: i64, style: u8, ts_unit_ms: u32) -> Option<Operations> {
+pub(crate) async fn build_ops(n: usize, a: usize, replica: &mut Replica<SimStorage>, intents: &[Intent], now_ns: i64, style: u8, ts_unit_ms: u32) -> Option<Operations> {
     let ts_ns = |ts: i64| -> i64 { if ts_unit_ms == 0 { (EPOCH0 + ts) * 1_000_000_000 } else { EPOCH0 * 1_000_000_000 + ts * ts_unit_ms as i64 * 1_000_000 } };
     let mut ops = Operations::new();
     let mut view: BTreeMap<u8, Option<TaskData>> = BTreeMap::new();
@@ -1124,6 +1124,7 @@ fn run_scripted(w: &W, faults: &[(usize, usize, u32, Decision)], only: Option<&[
                 nodes[pick] = None;
                 parked[pick] = None;
             }
+            PollOutcome::Blocked => unreachable!("step() waits"),
             PollOutcome::Crashed => {
                 // process stop: drop the node (its Replica, transaction and server handle), keep
                 // only the durable store; then restart it with the rest of its script
